@@ -835,7 +835,11 @@ def _read_namespaced_map(ctx: ReaderContext) -> lmap.PersistentMap:
                 "be specified as keywords without namespaces"
             )
 
-    _consume_whitespace(ctx)
+    char = _consume_whitespace(ctx)
+    if char == "":
+        raise ctx.eof_error("Unexpected EOF; expected a map after namespace")
+    if char != "{":
+        raise ctx.syntax_error(f"Unexpected char '{char}'; expected namespaced map")
 
     return _read_map(ctx, namespace=map_ns)
 
@@ -1499,6 +1503,8 @@ def _read_character(ctx: ReaderContext) -> str:
     s: list[str] = []
     reader = ctx.reader
     char = reader.peek()
+    if char == "":
+        raise ctx.eof_error("Unexpected EOF in character literal")
     is_first_char = True
     while True:
         if char == "" or (not is_first_char and not char.isalnum()):
@@ -1738,7 +1744,7 @@ def _read_comment(ctx: ReaderContext) -> LispReaderForm:
             reader.advance()
             return COMMENT
         if char == "":
-            return ctx.eof
+            return COMMENT
         reader.advance()
 
 
@@ -1747,6 +1753,8 @@ def _read_var_macro(ctx: ReaderContext) -> llist.PersistentList:
     assert ctx.reader.peek() == "'"
     ctx.reader.advance()
     char_next = ctx.reader.peek()
+    if char_next == "":
+        raise ctx.eof_error("Unexpected EOF; expected a symbol after #'")
     if char_next == "~":
         s = _read_unquote(ctx)
     else:
@@ -1768,6 +1776,8 @@ def _read_reader_conditional_macro(ctx: ReaderContext) -> LispReaderForm:
     conditionals."""
     try:
         return _read_reader_conditional(ctx)
+    except UnexpectedEOFError:
+        raise
     except SyntaxError as e:
         raise ctx.syntax_error(e.message).with_traceback(e.__traceback__) from None
 
@@ -1814,11 +1824,15 @@ def _read_reader_macro(ctx: ReaderContext) -> LispReaderForm:
 
 def _read_next_consuming_comment(ctx: ReaderContext) -> RawReaderForm:
     """Read the next full form from the input stream, consuming any
-    reader comments completely."""
+    reader comments completely.
+
+    Every caller is a prefix reader (quote, deref, unquote, metadata, a tag, ...)
+    which applies to the form that follows it, so input that ends before that form
+    is an unexpected EOF."""
     while True:
+        if _consume_whitespace(ctx) == "":
+            raise ctx.eof_error("Unexpected EOF; expected a form")
         v = _read_next(ctx)
-        if v is ctx.eof:
-            return cast(RawReaderForm, ctx.eof)
         if v is COMMENT or isinstance(v, Comment):
             continue
         return v
